@@ -8,7 +8,7 @@ From PegV Require Import Base.Tac Spec.Syntax Spec.Peg Spec.WF Model.Machine Mod
     rule at offset 0 has a result, the machine returns exactly it: a match consuming the same
     prefix, or a parse error. *)
 Theorem C01_machine_is_peg :
-  forall g ptx buf penv, good_grammar g -> good_buf buf ->
+  forall g ptx buf penv, good_grammar g -> good_buf buf -> good_switches g ->
   forall memo inline n r st0 rr,
     slot_ok g inline r -> peg_parse g ptx buf penv n r = Some rr ->
     match fst rr with
@@ -24,7 +24,7 @@ Print Assumptions C01_machine_is_peg.
     semantics has a result for every input and entry rule, so the statement above is unconditional:
     the machine terminates with the verdict and prefix of the PEG semantics. *)
 Theorem C01_total :
-  forall g ptx buf penv, good_grammar g -> good_buf buf ->
+  forall g ptx buf penv, good_grammar g -> good_buf buf -> good_switches g ->
   forall tab rank memo inline r rb st0,
     wf_b g tab rank = true -> nth_error g r = Some rb -> rb <> RNil -> slot_ok g inline r ->
     exists n rr b st', peg_parse g ptx buf penv n r = Some rr /\
